@@ -294,6 +294,26 @@ func genC08(r *gen.Rng, tier string, emit func(string)) {
 			emit("gsm7bytes " + canon.Hex(r.Bytes(r.Range(1, 12))))
 		}
 	}
+	// long texts handed to the encoder directly (the property is unbounded in length)
+	for _, l := range []int{250, 255, 256, 257, 285, 292, 293, 294, 300, 511, 512, 513, 1000, 2047, 4096, 5000} {
+		t := make([]rune, l)
+		for k := range t {
+			t[k] = rep[(k*7+l)%len(rep)]
+		}
+		emit("gsm7rt " + showRunes(t))
+		for k := range t {
+			t[k] = rune('a' + k%26)
+		}
+		emit("gsm7rt " + showRunes(t))
+	}
+	for i := 0; i < scale(tier, 40, 800); i++ {
+		l := r.Range(200, 700)
+		t := make([]rune, l)
+		for k := range t {
+			t[k] = rep[r.Intn(len(rep))]
+		}
+		emit("gsm7rt " + showRunes(append(t, tails[r.Intn(len(tails))]...)))
+	}
 	// exact lengths 0..24 ending in CR / ESC-prefixed / '@', all residues
 	for l := 0; l <= 24; l++ {
 		for _, tl := range tails {
